@@ -4,6 +4,7 @@ import SkgVerif.Model.Estimators
 import SkgVerif.Model.Binning
 import SkgVerif.Model.SumModels
 import SkgVerif.Model.Kriging
+import SkgVerif.Model.Pipeline
 import SkgVerif.Model.CrossVal
 import SkgVerif.Model.Fit
 import SkgVerif.Gen.Tables
@@ -132,6 +133,20 @@ def handleC02 : List String → Option String
       some s!"ok|{fmtRat (quantile ds q)}"
   | _ => none
 
+
+/-- the experimental variogram end to end (dense storage, `even` / `uniform`) -/
+def handlePipeline : List String → Option String
+  | ["pipeline", est, bm, nl, req, d, v] => do
+      let f ← estimatorByName est
+      let bm ← match bm.trimAscii.toString with
+        | "even" => some BinMethod.even | "uniform" => some BinMethod.uniform | _ => none
+      let nl ← nl.trimAscii.toString.toNat?
+      let req ← parseMaxlagReq req
+      let ds ← parseRats d
+      let v ← parseRats v
+      let r := variogramE2E f bm nl req ds v
+      some s!"ok|{fmtOptRat r.maxlag}|{fmtList fmtRat r.edges}|{fmtList toString r.groups}|{fmtList toString r.counts}|{fmtList fmtOptRat r.exp}"
+  | _ => none
 
 def evalModelF (name : String) (a : List Float) : Option Float :=
   match name, a with
